@@ -44,7 +44,7 @@ func GenBias(t *rapid.T, l string) Bias {
 // GenCmdBiased is GenCmd under a run's tilt.
 func GenCmdBiased(t *rapid.T, l string, b Bias) Cmd {
 	if b.Lists {
-		switch k := rapid.IntRange(0, 17).Draw(t, l+".lk"); {
+		switch k := rapid.IntRange(0, 19).Draw(t, l+".lk"); {
 		case k == 0:
 			return CmdCreateDatabase("db0", nil)
 		case k == 1:
@@ -58,6 +58,13 @@ func GenCmdBiased(t *rapid.T, l string, b Bias) Cmd {
 			return CmdCreateCQ("db0", "cq"+fmt.Sprint(n), fmt.Sprintf("CREATE CONTINUOUS QUERY cq%d ON db0 BEGIN SELECT mean(v) INTO m2 FROM m GROUP BY time(1h) END", n))
 		case k == 6:
 			return CmdDropCQ("db0", "cq"+fmt.Sprint(rapid.IntRange(0, 3).Draw(t, l+".cn")))
+		case k == 7:
+			// the grants of one user on several databases (a map-valued member)
+			return CmdCreateDatabase("db1", nil)
+		case k == 8:
+			return CmdCreateUser("u0", "hash0", false)
+		case k < 13:
+			return CmdSetPrivilege("u0", rapid.SampledFrom([]string{"db0", "db1"}).Draw(t, l+".pdb"), rapid.IntRange(1, 3).Draw(t, l+".priv"))
 		}
 	}
 	if b.Owners {
